@@ -142,10 +142,20 @@ type Env struct {
 	MkItem func(int) *Item
 	Div    func(int, int) int // panics for a zero divisor
 	EqAny  func(a, b interface{}) interface{}
-	FnEnv  func(int) int // depends on the environment it belongs to (adds B)
+	FnEnv  func(int) int                // depends on the environment it belongs to (adds B)
 	StrEq  func(a, b fmt.Stringer) bool // parameters of a non-empty interface type
+	MkBox  func(int) Box                // a struct value that cannot be a map key
+	FnAnys func([]interface{}) int      // takes what an array literal is typed as
 
 	log *Log
+}
+
+// Box holds a slice and a dynamic value: comparable as a Go type, but a Box
+// whose Any holds a slice panics when hashed.
+type Box struct {
+	Xs  []int
+	N   int
+	Any interface{}
 }
 
 // Methods on Env (value receiver, usable through Env and *Env).
@@ -223,6 +233,8 @@ func New(l *Log) *Env {
 	e.StrEq = func(a, b fmt.Stringer) bool { l.add("StrEq", a, b); return a == b }
 	e.FnEnv = func(n int) int { l.add("FnEnv", n); return n + e.B }
 	e.Div = func(a, b int) int { l.add("Div", a, b); return a / b }
+	e.MkBox = func(n int) Box { l.add("MkBox", n); return Box{Xs: []int{n, n + 1}, N: n, Any: []int{n}} }
+	e.FnAnys = func(xs []interface{}) int { l.add("FnAnys", xs); return len(xs) }
 	e.MkItem = func(n int) *Item {
 		l.add("MkItem", n)
 		if n%3 == 0 {
